@@ -2,7 +2,7 @@
 from props import ebb3sim as S
 
 ID = "C04"
-CFG = (True, True, True, False)     # (fix_status, fix_volt, fix_nick, fix_pin): readings of the model the implementation is compared with (True = repaired in /repo)
+CFG = (True, True, True, True)     # (fix_status, fix_volt, fix_nick, fix_pin): readings of the model the implementation is compared with (True = repaired in /repo)
 COQ_HEADER = "From Plotink Require Import Base.Prelude Base.PyStr Model.Serial3 Corr.S3 Corr.C04.\nOpen Scope Z_scope."
 COQ_RUN = "run04"
 COQ_CASE_TYPE = "case04"
